@@ -17,8 +17,10 @@ var _ Method = (*GuessAndCheck)(nil)
 type GuessAndCheck struct {
 	Rander distmv.Rander
 
-	bestF float64
-	bestX []float64
+	eval   int
+	bestF  float64
+	bestX  []float64
+	bestID int
 }
 
 func (*GuessAndCheck) Uses(has Available) (uses Available, err error) {
@@ -32,21 +34,30 @@ func (g *GuessAndCheck) Init(dim, tasks int) int {
 	if tasks < 0 {
 		panic(negativeTasks)
 	}
+	g.eval = 0
 	g.bestF = math.Inf(1)
 	g.bestX = resize(g.bestX, dim)
+	g.bestID = -1
 	return tasks
 }
 
 func (g *GuessAndCheck) sendNewLoc(operation chan<- Task, task Task) {
 	g.Rander.Rand(task.X)
 	task.Op = FuncEvaluation
+	// Number the samples in the order they are drawn.
+	task.ID = g.eval
+	g.eval++
 	operation <- task
 }
 
 func (g *GuessAndCheck) updateMajor(operation chan<- Task, task Task) {
 	// Update the best value seen so far, and send a MajorIteration.
-	if task.F < g.bestF {
+	// Among equal values the sample drawn first is the best, so that the
+	// location found does not depend on the order in which concurrent
+	// evaluations finish.
+	if task.F < g.bestF || (task.F == g.bestF && g.bestID != -1 && task.ID < g.bestID) {
 		g.bestF = task.F
+		g.bestID = task.ID
 		copy(g.bestX, task.X)
 	} else {
 		task.F = g.bestF
